@@ -883,7 +883,7 @@ for _line in open(os.path.join(os.path.dirname(os.path.abspath(__file__)), "..",
     ANCHORS[_p["id"]] = [f.split("src/", 1)[1] if "src/" in f else f for f in _p["anchors"].get("files", [])]
 
 
-MODEL_FUZZ_PROPS = ("C01", "C02", "C03", "C04", "C05", "C06", "C12", "C13", "C14", "C16", "C17", "C18")
+MODEL_FUZZ_PROPS = ("C01", "C02", "C03", "C04", "C05", "C06", "C11", "C12", "C13", "C14", "C16", "C17", "C18")
 
 
 def with_thorough_extras(base, asan_scale=None, cov_scale=0.05):
